@@ -540,3 +540,141 @@ pub(crate) fn bspldnev_single(
 ) -> PyResult<f64> {
     Ok(bspldnev_single_f64(&x, i, &k, &t, m, org_k))
 }
+
+/// Verification hooks (compiled only with `--cfg rateslib_verif`): the Python-facing methods of the three
+/// spline classes, callable from Rust; a raised exception is reported by its class name.
+#[cfg(rateslib_verif)]
+pub mod verif_hooks {
+    use super::*;
+
+    fn cls(e: PyErr) -> String {
+        Python::with_gil(|py| {
+            if e.is_instance_of::<PyTypeError>(py) {
+                "TypeError".to_string()
+            } else if e.is_instance_of::<PyValueError>(py) {
+                "ValueError".to_string()
+            } else {
+                "Exception".to_string()
+            }
+        })
+    }
+
+    macro_rules! table {
+        ($name:ident, $type:ident, $wrap:expr, $new:ident, $csolve:ident, $eval:ident, $vec:ident, $basis:ident, $coef:ident, $misc:ident) => {
+            pub fn $new(k: usize, t: Vec<f64>, c: Option<Vec<$type>>) -> $name {
+                $name::new(k, t, c)
+            }
+            pub fn $csolve(
+                s: &mut $name,
+                tau: Vec<f64>,
+                y: Vec<$type>,
+                left_n: usize,
+                right_n: usize,
+                allow_lsq: bool,
+            ) -> Result<(), String> {
+                s.csolve(tau, y, left_n, right_n, allow_lsq).map_err(cls)
+            }
+            /// the six single-point evaluation methods by name
+            pub fn $eval(s: &$name, f: &str, x: Number, m: usize) -> Result<Number, String> {
+                match f {
+                    "ppev_single" => s.ppev_single(x).map($wrap),
+                    "ppev_single_dual" => s.ppev_single_dual(x).map(Number::Dual),
+                    "ppev_single_dual2" => s.ppev_single_dual2(x).map(Number::Dual2),
+                    "ppdnev_single" => s.ppdnev_single(x, m).map($wrap),
+                    "ppdnev_single_dual" => s.ppdnev_single_dual(x, m).map(Number::Dual),
+                    "ppdnev_single_dual2" => s.ppdnev_single_dual2(x, m).map(Number::Dual2),
+                    _ => Err(PyValueError::new_err("unknown method")),
+                }
+                .map_err(cls)
+            }
+            /// `ppev` (m = None) / `ppdnev`
+            pub fn $vec(s: &$name, x: Vec<f64>, m: Option<usize>) -> Result<Vec<Number>, String> {
+                match m {
+                    None => s.ppev(x),
+                    Some(m) => s.ppdnev(x, m),
+                }
+                .map(|v| v.into_iter().map($wrap).collect())
+                .map_err(cls)
+            }
+            /// `bsplev` (m = None) / `bspldnev`
+            pub fn $basis(
+                s: &$name,
+                x: Vec<f64>,
+                i: usize,
+                m: Option<usize>,
+            ) -> Result<Vec<f64>, String> {
+                match m {
+                    None => s.bsplev(x, i),
+                    Some(m) => s.bspldnev(x, i, m),
+                }
+                .map_err(cls)
+            }
+            pub fn $coef(
+                s: &$name,
+            ) -> Result<(usize, usize, Vec<f64>, Option<Vec<Number>>), String> {
+                Ok((
+                    s.n().map_err(cls)?,
+                    s.k().map_err(cls)?,
+                    s.t().map_err(cls)?,
+                    s.c()
+                        .map_err(cls)?
+                        .map(|v| v.into_iter().map($wrap).collect()),
+                ))
+            }
+            /// (`__copy__` == self, to_json)
+            pub fn $misc(s: &$name) -> Result<(bool, String), String> {
+                let c = s.__copy__();
+                Ok((s.__eq__(&c).map_err(cls)?, s.to_json_py().map_err(cls)?))
+            }
+        };
+    }
+    table!(
+        PPSplineF64,
+        f64,
+        Number::F64,
+        f64_new,
+        f64_csolve,
+        f64_eval,
+        f64_vec,
+        f64_basis,
+        f64_coef,
+        f64_misc
+    );
+    table!(
+        PPSplineDual,
+        Dual,
+        Number::Dual,
+        dual_new,
+        dual_csolve,
+        dual_eval,
+        dual_vec,
+        dual_basis,
+        dual_coef,
+        dual_misc
+    );
+    table!(
+        PPSplineDual2,
+        Dual2,
+        Number::Dual2,
+        dual2_new,
+        dual2_csolve,
+        dual2_eval,
+        dual2_vec,
+        dual2_basis,
+        dual2_coef,
+        dual2_misc
+    );
+
+    pub fn py_bsplev_single(x: f64, i: usize, k: usize, t: Vec<f64>) -> Result<f64, String> {
+        bsplev_single(x, i, k, t, None).map_err(cls)
+    }
+    pub fn py_bspldnev_single(
+        x: f64,
+        i: usize,
+        k: usize,
+        t: Vec<f64>,
+        m: usize,
+    ) -> Result<f64, String> {
+        bspldnev_single(x, i, k, t, m, None).map_err(cls)
+    }
+}
